@@ -133,6 +133,36 @@ def handleObs (line : String) (toks : List String) : M Unit := do
     let s ← get
     count "cachedcount" line
     expectEq "cachedcount" (toString s.forest.liveLeaves.length) a
+  | impl :: "hverify" :: h :: t :: p :: res =>
+    -- honest proof (C02): the model must agree, the spec says it is the canonical proof of
+    -- live leaves, so it must be accepted, and the stand-alone verifier must report exactly
+    -- the trees that contain the targets
+    match parseHashes h, parseU64s t, parseHashes p with
+    | some hs, some ts, some ps =>
+      let tr ← implRows impl
+      let got := " ".intercalate res
+      let exp := modelVerify impl (BitVec.ofNat 64 I.n) I.roots hs ts ps tr
+      count "hverify" line
+      expectEq "hverify" exp got
+      match I.canon hs with
+      | some (cts, cps) =>
+        if cts.map (enc rows) != ts.map (·.toNat) || cps != ps then
+          oracleFail "hverify" "the reference prover's proof is not the canonical proof of the specification"
+        else if !got.startsWith "ok" then
+          oracleFail "hverify" s!"honest canonical proof rejected by {impl}: {got}"
+        else if impl == "stump" then
+          -- trees (indexes into the roots, highest tree first) that contain a target
+          let rowsDesc := treeRows I.n
+          let treeIdx (p : Pos) : Option Nat :=
+            rowsDesc.findIdx? (fun h => p.1 ≤ h && p.2 >>> (h - p.1) == 2 * (I.n >>> (h + 1)))
+          let want := ((cts.filterMap treeIdx).mergeSort (· ≤ ·)).eraseDups
+          let have_ := match parseNats ((res.drop 1).headD "-") with
+            | some l => (l.mergeSort (· ≤ ·))
+            | none => []
+          if want != have_ then
+            oracleFail "hverify" s!"Verify reported trees {have_}, the targets lie in trees {want}"
+      | none => oracleFail "hverify" "honest proof of leaves that are not live in the specification"
+    | _, _, _ => parseError line
   | impl :: "verify" :: h :: t :: p :: res =>
     match parseHashes h, parseU64s t, parseHashes p with
     | some hs, some ts, some ps =>
